@@ -93,45 +93,36 @@ is_special_domain (const char *start, const char *end)
     ch = strchr (cp, '.');
     len = ch - cp;
 
-    if (len == 7) { /* probably "example.tld" */
-        memcpy (label, cp, len);
-        label[len] = 0;
+    if (len == 7 && strncasecmp ("example.", cp, 8) == 0) {
+        /* probably reserved example.tld: there are only com, net, org */
+        const char *tld = ch + 1;
+        const char *dot = strchr (tld, '.');
+        size_t tld_len = (dot == NULL) ? (size_t) (end - tld) : (size_t) (dot - tld);
 
-        if (strncasecmp ("example", label, 8) == 0) {
-            cp = ch + 1;
-            ch = strchr (cp, '.');
-
-            if (ch == NULL)
-                len = end - cp;
-            else
-                len = ch - cp;
-
-            if (len != 3) /* there are only com, net, org */
-                return (NO);
-
-            /* probably reserved example.tld */
-            memcpy (label, cp, len);
-            label[len] = 0;
+        if (tld_len == 3) {
+            memcpy (label, tld, tld_len);
+            label[tld_len] = 0;
             CHECK(example, label);
         }
     }
-    else { /* probably special or reserved */
-        /* check only the last label */
-        cp = ch + 1;
-        ch = strchr (cp, '.');
 
-        if (ch == NULL)
-            len = end - cp;
-        else
-            len = ch - cp;
+    /* probably special or reserved: check only the last label,
+     * whatever the length of the label before it
+     */
+    cp = ch + 1;
+    ch = strchr (cp, '.');
 
-        if (len < 4 || len > 9 || len == 6 || len == 8)
-            return (NO);
+    if (ch == NULL)
+        len = end - cp;
+    else
+        len = ch - cp;
 
-        memcpy (label, cp, len);
-        label[len] = 0;
-        CHECK(reserved, label);
-    }
+    if (len < 4 || len > 9 || len == 6 || len == 8)
+        return (NO);
+
+    memcpy (label, cp, len);
+    label[len] = 0;
+    CHECK(reserved, label);
 
     return (NO);
 }
